@@ -1187,9 +1187,12 @@ func (r *runningStep) deployStage() (deployer.Plugin, bool, error) {
 		r.lock.Unlock()
 	default: // Default, so it doesn't block on this receive
 		verifhook.Gate("plugin.deploy.beforeWait", "obj", r)
-		// It's waiting now.
+		// It's waiting now, unless the input was provided after the receive above was tried:
+		// then it is already in the channel and nobody needs to act for this step to proceed.
 		r.lock.Lock()
-		r.state = step.RunningStepStateWaitingForInput
+		if !r.deployInputAvailable {
+			r.state = step.RunningStepStateWaitingForInput
+		}
 		verifhook.Emit("SSlot", "obj", r, "slot", "deploy", "op", "miss")
 		verifhook.Emit("SSet", "obj", r, "stage", string(r.currentStage), "state", string(r.state))
 		r.lock.Unlock()
